@@ -34,8 +34,8 @@ def run(modname: str, key: str, call: dict) -> dict:
         tb = traceback.extract_tb(e.__traceback__)
         site = None
         for fr in reversed(tb):
-            if fr.filename.startswith("/repo/"):
-                site = f"{fr.filename[6:]}:{fr.lineno}:{fr.name}"
+            if fr.filename.startswith(os.environ.get("VF_REPO", "/repo") + "/"):
+                site = f"{fr.filename[len(os.environ.get("VF_REPO", "/repo")) + 1 :]}:{fr.lineno}:{fr.name}"
                 break
         out["exception"] = {"type": type(e).__name__, "msg": str(e)[:400], "site": site}
         out["returns"] = f"raises {type(e).__name__}"
@@ -55,7 +55,7 @@ def run(modname: str, key: str, call: dict) -> dict:
 
 _SEED_SCRIPT = """
 import sys, json, hashlib
-sys.path.insert(0, '/repo')
+import os; sys.path.insert(0, os.environ.get('VF_REPO', '/repo'))
 from pyxform.xls2xform import convert
 wb = json.loads(sys.argv[1])
 try:
